@@ -1,6 +1,10 @@
 from .common import Suite, hexs, rbytes
 
 BASE = 3232235876  # 192.168.1.100
+# The address column is TEXT: bases whose small ranges cross a change in the number of digits of an octet
+# (.8-.15, .98-.105) or an octet boundary (0.254-1.5), so that any textual comparison of addresses shows
+# (seeded change C01-6: a BETWEEN over address strings).
+BASES = [BASE, BASE, 3232235874, 167772168, 3232235774]  # .1.100, .1.98, 10.0.0.8, 192.168.0.254
 
 
 def ddmin_ops(prefix, ops, sep=";"):
@@ -28,8 +32,9 @@ class PoolHistory(Suite):
         if ncl >= 2 and rng.random() < 0.2:
             clients[1] = clients[0] + b"\x00"      # near-identical identifiers
         nu = rng.choice([1, 2, 3, 4, 6, 8])
-        uni = [BASE + i for i in range(nu)]
-        outside = [BASE + 100 + i for i in range(3)]
+        base = rng.choice(BASES)
+        uni = [base + i for i in range(nu)]
+        outside = [base + 100 + i for i in range(3)]
         pools = [uni]
         for _ in range(rng.randrange(3)):
             k = rng.randrange(1, nu + 1)
